@@ -1,1 +1,656 @@
-fn main() {}
+//! Conformance driver for C26 / C27 / C28 / C33 (generated interfaces and proxies).
+//!
+//!   iface hash
+//!   iface rpc    <trees.ndjson> <cases.ndjson> <out.ndjson>          raw calls on tree 0 (C26, C27 wire part)
+//!   iface props  <trees.ndjson> <histories.ndjson> <out.ndjson>      Properties histories on tree 0 (C28)
+//!   iface intro  <trees.ndjson> <out.ndjson>                         Introspect every node of every tree (C27)
+//!   iface wire   <trees.ndjson> <shapes.ndjson> <out.ndjson>         signatures actually sent: Get replies, signals (C27)
+//!   iface proxy  <trees.ndjson> <shapes.ndjson> <async|blocking> <seed> <rounds> <out.ndjson>   (C33)
+//!
+//! The program under test is `generated.rs` (or `generated_thorough.rs` with feature "thorough"),
+//! produced by lib/iface_codegen.py from the shapes TLC emitted; `iface hash` tells the caller which
+//! shapes the binary was compiled from.  This file only observes: it sends what the cases say,
+//! records what the handlers saw (crate::sink) and what came back on the wire (crate::rawmsg).
+mod rawmsg;
+mod rt;
+mod sink;
+#[cfg(not(feature = "thorough"))]
+mod generated;
+#[cfg(feature = "thorough")]
+#[path = "generated_thorough.rs"]
+mod generated;
+
+use std::io::{BufRead, BufReader, BufWriter, Write};
+use std::sync::atomic::Ordering;
+
+use futures_util::StreamExt;
+use rawmsg::model;
+use serde_json::{json, Value as J};
+use zbus::message::{Flags, Message};
+use zvariant::{StructureBuilder, Value};
+
+const PROPS_IFACE: &str = "org.freedesktop.DBus.Properties";
+const INTRO_IFACE: &str = "org.freedesktop.DBus.Introspectable";
+
+fn read_ndjson(path: &str) -> Vec<J> {
+    let f = std::fs::File::open(path).unwrap_or_else(|e| panic!("open {path}: {e}"));
+    BufReader::new(f)
+        .lines()
+        .map(|l| l.expect("read line"))
+        .filter(|l| !l.trim().is_empty())
+        .map(|l| serde_json::from_str(&l).expect("json line"))
+        .collect()
+}
+
+fn tree_by_id(trees: &[J], tid: u64) -> &J {
+    trees.iter().find(|t| t["tid"].as_u64() == Some(tid)).expect("tree id")
+}
+
+/// A fresh connection pair with the tree's interfaces registered and the object server running.
+fn setup(tree: &J) -> rt::Det {
+    let d = rt::Det::new();
+    for r in tree["regs"].as_array().unwrap() {
+        let k = r["iface"].as_u64().unwrap() as usize;
+        let path = r["path"].as_str().unwrap();
+        let added = d
+            .run(generated::register(d.server.object_server(), k, path))
+            .expect("registration hangs")
+            .expect("registration failed");
+        assert!(added, "harness: tree registers interface {k} twice at {path}");
+    }
+    // Let the lazily spawned object-server task subscribe before any call is sent (a call sent
+    // before that is lost; that race belongs to C30, not to the properties checked here).
+    d.settle();
+    d
+}
+
+fn build_call(path: &str, iface: &str, member: &str, noreply: bool, args: &[J]) -> Message {
+    let mut b = Message::method_call(path, member).expect("method_call");
+    if !iface.is_empty() {
+        b = b.interface(iface).expect("interface");
+    }
+    if noreply {
+        b = b.with_flags(Flags::NoReplyExpected).expect("flags");
+    }
+    if args.is_empty() {
+        return b.build(&()).expect("build");
+    }
+    let mut pool = model::FdPool::new();
+    let mut sb = StructureBuilder::new();
+    for a in args {
+        let v: Value<'static> = model::build_value(&a["T"], &a["v"], &mut pool).expect("case value");
+        sb = sb.append_field(v);
+    }
+    let st = sb.build().expect("structure");
+    b.build(&st).expect("build")
+}
+
+/// What a peer sees of a received message, from the raw bytes.
+fn raw_json(m: &Message) -> J {
+    let bytes: &[u8] = m.data();
+    match rawmsg::parse_header(bytes) {
+        Err(e) => json!({"type": "unparsed", "name": "", "sig": "", "body": [], "decoded": false, "msg": e,
+                         "member": "", "iface": "", "path": "", "rs": 0}),
+        Ok(h) => {
+            let (body, decoded, err) = match rawmsg::body_abstract(bytes, &h) {
+                Ok(b) => (b, true, String::new()),
+                Err(e) => (vec![], false, e),
+            };
+            // the human readable text of an error reply (first string argument), never compared for
+            // zbus's own errors, but it is the payload of a handler's error
+            let msg = body
+                .first()
+                .filter(|b| b["T"]["k"] == "s")
+                .map(|b| String::from_utf8_lossy(&model::bytes_of(&b["v"]["s"])).to_string())
+                .unwrap_or_default();
+            json!({"type": rawmsg::type_name(h.mtype), "name": h.error_name.clone().unwrap_or_default(),
+                   "sig": h.signature, "body": body, "decoded": decoded, "msg": if decoded { msg } else { err },
+                   "member": h.member.clone().unwrap_or_default(), "iface": h.interface.clone().unwrap_or_default(),
+                   "path": h.path.clone().unwrap_or_default(), "rs": h.reply_serial.unwrap_or(0)})
+        }
+    }
+}
+
+/// Pair the handler events logged since the last `take` into runs.
+fn handler_runs(evs: &[J]) -> (Vec<J>, Vec<J>) {
+    let mut runs: Vec<J> = vec![];
+    let mut props: Vec<J> = vec![];
+    for e in evs {
+        match e["ev"].as_str().unwrap() {
+            "HStart" => runs.push(json!({"iface": e["iface"], "member": e["member"], "args": e["args"],
+                                         "end": {"kind": "none", "outs": [], "name": "", "msg": ""}})),
+            "HEnd" => {
+                let open = runs.iter_mut().rev().find(|r| r["iface"] == e["iface"] && r["member"] == e["member"] && r["end"]["kind"] == "none");
+                let end = if e.get("ok").is_some() {
+                    json!({"kind": "ok", "outs": e["ok"], "name": "", "msg": ""})
+                } else {
+                    json!({"kind": "err", "outs": [], "name": e["err"], "msg": e["msg"]})
+                };
+                match open {
+                    Some(r) => r["end"] = end,
+                    None => runs.push(json!({"iface": e["iface"], "member": e["member"], "args": [], "end": end})),
+                }
+            }
+            _ => props.push(e.clone()),
+        }
+    }
+    (runs, props)
+}
+
+/// Send a call, run the system to quiescence, return (serial, replies to it, other messages).
+fn exchange(d: &mut rt::Det, m: &Message) -> (u32, Vec<J>, Vec<J>) {
+    let serial = m.primary_header().serial_num().get();
+    d.run(d.client.send(m)).expect("send hangs").expect("send failed");
+    let msgs = d.drain();
+    let mut replies = vec![];
+    let mut others = vec![];
+    for r in &msgs {
+        let j = raw_json(r);
+        if (j["type"] == "return" || j["type"] == "error") && j["rs"].as_u64() == Some(serial as u64) {
+            replies.push(j);
+        } else {
+            others.push(j);
+        }
+    }
+    (serial, replies, others)
+}
+
+fn sent_json(m: &Message, args: &[J]) -> J {
+    let h = rawmsg::parse_header(m.data()).expect("own message parses");
+    json!({"path": h.path.unwrap_or_default(), "iface": h.interface.unwrap_or_default(),
+           "member": h.member.unwrap_or_default(), "sig": h.signature, "noreply": h.flags & 1 == 1, "args": args})
+}
+
+// ------------------------------------------------------------------------------------------- rpc
+fn cmd_rpc(trees: &str, cases: &str, out: &str) {
+    let trees = read_ndjson(trees);
+    let mut d = setup(tree_by_id(&trees, 0));
+    let mut w = BufWriter::new(std::fs::File::create(out).expect("create out"));
+    for c in read_ndjson(cases) {
+        let s = &c["send"];
+        let args: Vec<J> = s["args"].as_array().unwrap().clone();
+        sink::FAIL.store(c["fail"].as_bool().unwrap_or(false), Ordering::SeqCst);
+        let _ = sink::take();
+        let m = build_call(s["path"].as_str().unwrap(), s["iface"].as_str().unwrap(), s["member"].as_str().unwrap(),
+                           c["noreply"].as_bool().unwrap(), &args);
+        let (_serial, replies, others) = exchange(&mut d, &m);
+        sink::FAIL.store(false, Ordering::SeqCst);
+        let (runs, _) = handler_runs(&sink::take());
+        let line = json!({"id": c["id"], "ev": "Call", "tid": 0,
+                          "case": {"iface": c["iface"], "method": c["method"], "cls": c["cls"], "noreply": c["noreply"], "fail": c["fail"]},
+                          "sent": sent_json(&m, &args), "handlers": runs, "replies": replies, "stray": others.len()});
+        writeln!(w, "{line}").unwrap();
+    }
+}
+
+// ------------------------------------------------------------------------------------------- props
+fn obj(pairs: Vec<(&str, J)>) -> J {
+    let mut m = serde_json::Map::new();
+    for (k, v) in pairs {
+        m.insert(k.to_string(), v);
+    }
+    J::Object(m)
+}
+
+fn server_values(d: &rt::Det, k: usize, path: &str) -> J {
+    let vals = d
+        .run(generated::prop_values(d.server.object_server(), k, path))
+        .expect("prop_values hangs")
+        .expect("prop_values");
+    obj(vals)
+}
+
+/// a{sv} abstract value -> JSON object name -> typed value
+fn dict_to_obj(tv: &J) -> J {
+    let mut m = serde_json::Map::new();
+    if let Some(es) = tv["v"]["a"].as_array() {
+        for e in es {
+            let name = String::from_utf8_lossy(&model::bytes_of(&e["r"][0]["s"])).to_string();
+            m.insert(name, json!({"T": e["r"][1]["t"], "v": e["r"][1]["v"]}));
+        }
+    }
+    J::Object(m)
+}
+
+fn str_list(tv: &J) -> J {
+    J::Array(
+        tv["v"]["a"]
+            .as_array()
+            .map(|a| a.iter().map(|s| J::String(String::from_utf8_lossy(&model::bytes_of(&s["s"])).to_string())).collect())
+            .unwrap_or_default(),
+    )
+}
+
+/// PropertiesChanged signals among `others`, decoded.
+fn changed_signals(others: &[J]) -> (Vec<J>, usize) {
+    let mut sigs = vec![];
+    let mut stray = 0;
+    for o in others {
+        if o["type"] == "signal" && o["member"] == "PropertiesChanged" && o["iface"] == PROPS_IFACE && o["sig"] == "sa{sv}as" {
+            let b = &o["body"];
+            sigs.push(json!({"path": o["path"],
+                             "ifname": String::from_utf8_lossy(&model::bytes_of(&b[0]["v"]["s"])).to_string(),
+                             "changed": dict_to_obj(&b[1]), "invalidated": str_list(&b[2])}));
+        } else {
+            stray += 1;
+        }
+    }
+    (sigs, stray)
+}
+
+fn str_tv(s: &str) -> J {
+    json!({"T": {"k": "s"}, "v": {"s": model::jbytes(s.as_bytes())}})
+}
+
+fn first_field(replies: &[J], f: &str, default: &str) -> J {
+    replies.first().map(|r| r[f].clone()).unwrap_or(J::String(default.to_string()))
+}
+
+fn cmd_props(trees: &str, hists: &str, out: &str) {
+    let trees = read_ndjson(trees);
+    let tree = tree_by_id(&trees, 0);
+    let mut w = BufWriter::new(std::fs::File::create(out).expect("create out"));
+    for h in read_ndjson(hists) {
+        let k = h["iface"].as_u64().unwrap() as usize;
+        let path = tree["regs"].as_array().unwrap().iter().find(|r| r["iface"].as_u64() == Some(k as u64)).expect("iface in tree 0")
+            ["path"].as_str().unwrap().to_string();
+        let mut d = setup(tree);
+        let _ = sink::take();
+        writeln!(w, "{}", json!({"ev": "Reset", "hid": h["id"], "iface": k, "path": path, "init": server_values(&d, k, &path)})).unwrap();
+        for op in h["ops"].as_array().unwrap() {
+            let kind = op["op"].as_str().unwrap();
+            let ifname = op["ifname"].as_str().unwrap();
+            let prop = op["prop"].as_str().unwrap_or("");
+            let args: Vec<J> = match kind {
+                "Get" => vec![str_tv(ifname), str_tv(prop)],
+                "GetAll" => vec![str_tv(ifname)],
+                "Set" => vec![str_tv(ifname), str_tv(prop),
+                              json!({"T": {"k": "v"}, "v": {"t": op["value"]["T"], "v": op["value"]["v"]}})],
+                other => panic!("unknown op {other}"),
+            };
+            let m = build_call(&path, PROPS_IFACE, kind, false, &args);
+            let (_s, replies, others) = exchange(&mut d, &m);
+            let (sigs, stray) = changed_signals(&others);
+            let (_, pevs) = handler_runs(&sink::take());
+            // decode the reply payload into the form the specification talks about
+            let mut value = json!({"T": {"k": "none"}, "v": {}});
+            let mut all = json!({});
+            let mut decoded = false;
+            if replies.len() == 1 && replies[0]["type"] == "return" {
+                if kind == "Get" && replies[0]["sig"] == "v" {
+                    let b = &replies[0]["body"][0]["v"];
+                    value = json!({"T": b["t"], "v": b["v"]});
+                    decoded = true;
+                }
+                if kind == "GetAll" && replies[0]["sig"] == "a{sv}" {
+                    all = dict_to_obj(&replies[0]["body"][0]);
+                    decoded = true;
+                }
+                if kind == "Set" && replies[0]["sig"] == "" {
+                    decoded = true;
+                }
+            }
+            let line = json!({"ev": kind, "hid": h["id"], "iface": k, "ifname": ifname, "prop": prop,
+                              "value": if kind == "Set" { op["value"].clone() } else { json!({"T": {"k": "none"}, "v": {}}) },
+                              "nreplies": replies.len(), "rtype": first_field(&replies, "type", "none"),
+                              "rname": first_field(&replies, "name", ""), "rsig": first_field(&replies, "sig", ""),
+                              "decoded": decoded, "got": value, "all": all, "signals": sigs, "stray": stray,
+                              "accessors": pevs.len(), "server": server_values(&d, k, &path)});
+            writeln!(w, "{line}").unwrap();
+        }
+    }
+}
+
+// ------------------------------------------------------------------------------------------- intro
+fn zx_tree(n: &zbus_xml::Node<'_>) -> J {
+    let ifaces: Vec<J> = n
+        .interfaces()
+        .iter()
+        .map(|i| {
+            let methods: Vec<J> = i
+                .methods()
+                .iter()
+                .map(|m| {
+                    let args: Vec<J> = m
+                        .args()
+                        .iter()
+                        .map(|a| json!({"name": a.name().unwrap_or(""), "type": a.ty().to_string(),
+                                        "dir": match a.direction() { Some(zbus_xml::ArgDirection::In) => "in", Some(zbus_xml::ArgDirection::Out) => "out", None => "" }}))
+                        .collect();
+                    json!({"name": m.name().as_str(), "args": args})
+                })
+                .collect();
+            let signals: Vec<J> = i
+                .signals()
+                .iter()
+                .map(|s| {
+                    let args: Vec<J> = s.args().iter().map(|a| json!({"name": a.name().unwrap_or(""), "type": a.ty().to_string(), "dir": ""})).collect();
+                    json!({"name": s.name().as_str(), "args": args})
+                })
+                .collect();
+            let props: Vec<J> = i
+                .properties()
+                .iter()
+                .map(|p| {
+                    let ann: Vec<J> = p.annotations().iter().map(|a| json!({"name": a.name(), "value": a.value()})).collect();
+                    json!({"name": p.name().as_str(), "type": p.ty().to_string(),
+                           "access": match p.access() { zbus_xml::PropertyAccess::Read => "read", zbus_xml::PropertyAccess::Write => "write", zbus_xml::PropertyAccess::ReadWrite => "readwrite" },
+                           "annots": ann})
+                })
+                .collect();
+            json!({"name": i.name().as_str(), "methods": methods, "signals": signals, "props": props})
+        })
+        .collect();
+    let nodes: Vec<J> = n.nodes().iter().map(|c| json!({"name": c.name().unwrap_or(""), "node": zx_tree(c)})).collect();
+    json!({"ifaces": ifaces, "nodes": nodes})
+}
+
+fn cmd_intro(trees: &str, out: &str) {
+    let mut w = BufWriter::new(std::fs::File::create(out).expect("create out"));
+    let mut id = 0;
+    for tree in read_ndjson(trees) {
+        let mut d = setup(&tree);
+        for node in tree["nodes"].as_array().unwrap() {
+            let path = node["path"].as_str().unwrap();
+            let m = build_call(path, INTRO_IFACE, "Introspect", false, &[]);
+            let (_s, replies, others) = exchange(&mut d, &m);
+            let mut xml = J::Null;
+            let mut zx = J::Null;
+            let mut zx_err = String::new();
+            if replies.len() == 1 && replies[0]["type"] == "return" && replies[0]["sig"] == "s" {
+                let text = String::from_utf8(model::bytes_of(&replies[0]["body"][0]["v"]["s"])).expect("utf8 reply");
+                let t2 = text.clone();
+                match model::guarded(move || zbus_xml::Node::from_reader(t2.as_bytes()).map(|n| zx_tree(&n)).map_err(|e| e.to_string())) {
+                    Ok(Ok(t)) => zx = t,
+                    Ok(Err(e)) => zx_err = e,
+                    Err(p) => zx_err = format!("panic: {p}"),
+                }
+                xml = J::String(text);
+            }
+            let line = json!({"id": id, "ev": "Intro", "tid": tree["tid"], "path": path, "segs": node["segs"],
+                              "nreplies": replies.len(), "rtype": first_field(&replies, "type", "none"),
+                              "rname": first_field(&replies, "name", ""),
+                              "xml": xml, "zx": zx, "zx_err": zx_err, "stray": others.len()});
+            id += 1;
+            writeln!(w, "{line}").unwrap();
+        }
+    }
+}
+
+// ------------------------------------------------------------------------------------------- wire
+/// What the server really sends for properties and signals of every interface of tree 0:
+/// the signature inside the variant of a Get reply, and the body signature of emitted signals.
+fn cmd_wire(trees: &str, shapes: &str, out: &str) {
+    let trees = read_ndjson(trees);
+    let tree = tree_by_id(&trees, 0);
+    let shapes = read_ndjson(shapes);
+    let mut d = setup(tree);
+    let mut w = BufWriter::new(std::fs::File::create(out).expect("create out"));
+    let mut rng = model::Rng(7);
+    let mut id = 0;
+    for r in tree["regs"].as_array().unwrap() {
+        let k = r["iface"].as_u64().unwrap() as usize;
+        let path = r["path"].as_str().unwrap();
+        let shape = shapes.iter().find(|s| s["id"].as_u64() == Some(k as u64)).expect("shape");
+        let ifname = shape["name"].as_str().unwrap();
+        for p in shape["props"].as_array().unwrap() {
+            let name = p["name"].as_str().unwrap();
+            let m = build_call(path, PROPS_IFACE, "Get", false, &[str_tv(ifname), str_tv(name)]);
+            let (_s, replies, _) = exchange(&mut d, &m);
+            let ok = replies.len() == 1 && replies[0]["type"] == "return" && replies[0]["sig"] == "v";
+            let inner = if ok { model::sig_string(&replies[0]["body"][0]["v"]["t"]) } else { String::new() };
+            // a Set with a value of the declared type
+            let v = sink::rand_val(&p["ty"], &mut rng, 0);
+            let m = build_call(path, PROPS_IFACE, "Set", false,
+                               &[str_tv(ifname), str_tv(name), json!({"T": {"k": "v"}, "v": {"t": p["ty"], "v": v}})]);
+            let (_s, sreplies, _) = exchange(&mut d, &m);
+            let set_ok = sreplies.len() == 1 && sreplies[0]["type"] == "return";
+            writeln!(w, "{}", json!({"id": id, "ev": "WireProp", "iface": k, "ifname": ifname, "prop": name,
+                                     "get_ok": ok, "get_sig": inner, "set_sig": model::sig_string(&p["ty"]), "set_ok": set_ok})).unwrap();
+            id += 1;
+        }
+        for g in shape["signals"].as_array().unwrap() {
+            let name = g["name"].as_str().unwrap();
+            let args: Vec<J> = g["args"].as_array().unwrap().iter().map(|t| json!({"T": t, "v": sink::rand_val(t, &mut rng, 0)})).collect();
+            let _ = d.drain();
+            d.run(generated::emit_signal(d.server.object_server(), k, path, name, &args)).expect("emit hangs").expect("emit");
+            let got: Vec<J> = d.drain().iter().map(raw_json).filter(|j| j["type"] == "signal" && j["member"] == name && j["iface"] == ifname).collect();
+            writeln!(w, "{}", json!({"id": id, "ev": "WireSignal", "iface": k, "ifname": ifname, "signal": name,
+                                     "count": got.len(), "sig": got.first().map(|g| g["sig"].clone()).unwrap_or(J::String("?".into()))})).unwrap();
+            id += 1;
+        }
+    }
+}
+
+// ------------------------------------------------------------------------------------------- proxy
+fn rand_args(ts: &J, rng: &mut model::Rng) -> Vec<J> {
+    ts.as_array().unwrap().iter().map(|t| json!({"T": t, "v": sink::rand_val(t, rng, 0)})).collect()
+}
+
+fn res_json(r: Result<Vec<J>, J>) -> J {
+    match r {
+        Ok(outs) => json!({"kind": "ok", "outs": outs, "name": "", "msg": ""}),
+        Err(e) => json!({"kind": "err", "outs": [], "name": e["err"], "msg": e["msg"].as_str().unwrap_or("")}),
+    }
+}
+
+fn local_err(e: &zbus::Error) -> J {
+    json!({"kind": "local", "outs": [], "name": "", "msg": e.to_string()})
+}
+
+fn hang_json() -> J {
+    json!({"kind": "hang", "outs": [], "name": "", "msg": ""})
+}
+
+/// One round = every method, property and signal of every interface of tree 0 once, random values.
+fn cmd_proxy(trees: &str, shapes: &str, mode: &str, seed: u64, rounds: u64, out: &str) {
+    let trees = read_ndjson(trees);
+    let tree = tree_by_id(&trees, 0).clone();
+    let shapes = read_ndjson(shapes);
+    let mut w = BufWriter::new(std::fs::File::create(out).expect("create out"));
+    let mut rng = model::Rng(seed.wrapping_mul(0x9E37).wrapping_add(if mode == "async" { 1 } else { 2 }));
+    let mut id = 0u64;
+    let mut emit = |mut j: J| {
+        j["id"] = json!(id);
+        j["mode"] = json!(mode);
+        id += 1;
+        writeln!(w, "{j}").unwrap();
+    };
+    if mode == "async" {
+        let mut d = setup(&tree);
+        for _ in 0..rounds {
+            for r in tree["regs"].as_array().unwrap() {
+                let k = r["iface"].as_u64().unwrap() as usize;
+                let path = r["path"].as_str().unwrap();
+                let shape = shapes.iter().find(|s| s["id"].as_u64() == Some(k as u64)).expect("shape");
+                for m in shape["methods"].as_array().unwrap() {
+                    let member = m["name"].as_str().unwrap();
+                    let args = rand_args(&m["ins"], &mut rng);
+                    let fail = m["fallible"].as_bool().unwrap() && rng.chance(1, 4);
+                    sink::FAIL.store(fail, Ordering::SeqCst);
+                    let _ = sink::take();
+                    let res = d.run(generated::proxy_call_async(&d.client, k, path, member, &args));
+                    sink::FAIL.store(false, Ordering::SeqCst);
+                    d.settle();
+                    let (runs, _) = handler_runs(&sink::take());
+                    let ret = match res {
+                        Err(rt::Hang) => hang_json(),
+                        Ok(Err(e)) => local_err(&e),
+                        Ok(Ok(r)) => res_json(r),
+                    };
+                    emit(json!({"ev": "PCall", "iface": k, "member": member, "args": args, "fail": fail, "handlers": runs, "ret": ret}));
+                }
+                for p in shape["props"].as_array().unwrap() {
+                    let name = p["name"].as_str().unwrap();
+                    if p["access"] != "read" {
+                        let v = json!({"T": p["ty"], "v": sink::rand_val(&p["ty"], &mut rng, 0)});
+                        let res = d.run(generated::proxy_set_async(&d.client, k, path, name, &v));
+                        d.settle();
+                        let ret = match res {
+                            Err(rt::Hang) => hang_json(),
+                            Ok(Err(e)) => local_err(&e),
+                            Ok(Ok(r)) => res_json(r.map(|_| vec![])),
+                        };
+                        emit(json!({"ev": "PSet", "iface": k, "prop": name, "value": v, "ret": ret, "server": server_values(&d, k, path)}));
+                    }
+                    if p["access"] != "write" {
+                        let res = d.run(generated::proxy_get_async(&d.client, k, path, name));
+                        d.settle();
+                        let ret = match res {
+                            Err(rt::Hang) => hang_json(),
+                            Ok(Err(e)) => local_err(&e),
+                            Ok(Ok(r)) => res_json(r.map(|v| vec![v])),
+                        };
+                        emit(json!({"ev": "PGet", "iface": k, "prop": name, "ret": ret, "server": server_values(&d, k, path)}));
+                    }
+                }
+                for g in shape["signals"].as_array().unwrap() {
+                    let name = g["name"].as_str().unwrap();
+                    let args = rand_args(&g["args"], &mut rng);
+                    let st = d.run(generated::proxy_signals_async(&d.client, k, path, name));
+                    let mut items: Vec<J> = vec![];
+                    let mut note = String::new();
+                    match st {
+                        Err(rt::Hang) => note = "subscribe hangs".into(),
+                        Ok(Err(e)) => note = format!("subscribe failed: {e}"),
+                        Ok(Ok(mut st)) => {
+                            d.settle();
+                            match d.run(generated::emit_signal(d.server.object_server(), k, path, name, &args)) {
+                                Err(rt::Hang) => note = "emit hangs".into(),
+                                Ok(Err(e)) => note = format!("emit failed: {e}"),
+                                Ok(Ok(())) => {}
+                            }
+                            d.settle();
+                            // everything that has arrived; the stream being pending at quiescence ends it
+                            while let Ok(Some(it)) = d.run(st.next()) {
+                                items.push(match it {
+                                    Ok(a) => json!({"ok": true, "args": a, "msg": ""}),
+                                    Err(e) => json!({"ok": false, "args": [], "msg": e}),
+                                });
+                            }
+                            drop(st);
+                            d.settle();
+                        }
+                    }
+                    let _ = d.drain();
+                    emit(json!({"ev": "PSignal", "iface": k, "signal": name, "args": args, "items": items, "note": note}));
+                }
+            }
+        }
+    } else {
+        blocking::run(&tree, &shapes, &mut rng, rounds, &mut emit);
+    }
+}
+
+/// The same round with the blocking proxies: normal connections (internal executor threads), the
+/// caller is this thread.  Not schedule-controlled; a watchdog turns a hang into a tool failure.
+mod blocking {
+    use super::*;
+    use zbus::connection::socket::Channel;
+
+    pub fn run(tree: &J, shapes: &[J], rng: &mut model::Rng, rounds: u64, emit: &mut dyn FnMut(J)) {
+        std::thread::spawn(|| {
+            std::thread::sleep(std::time::Duration::from_secs(600));
+            eprintln!("harness: blocking proxy run exceeded its watchdog");
+            std::process::exit(3);
+        });
+        let (a, b) = Channel::pair();
+        let guid = zbus::Guid::generate();
+        let server = zbus::blocking::connection::Builder::authenticated_socket(a, guid.clone()).unwrap().p2p().build().expect("server");
+        let client = zbus::blocking::connection::Builder::authenticated_socket(b, guid).unwrap().p2p().build().expect("client");
+        let os = server.inner().object_server().clone();
+        for r in tree["regs"].as_array().unwrap() {
+            let k = r["iface"].as_u64().unwrap() as usize;
+            zbus::block_on(generated::register(&os, k, r["path"].as_str().unwrap())).expect("register");
+        }
+        // wait until the object server answers (its task subscribes asynchronously)
+        let probe = zbus::blocking::Proxy::new(&client, "org.verif.Srv", "/", "org.freedesktop.DBus.Peer").expect("peer proxy");
+        for _ in 0..200 {
+            if probe.call_method("Ping", &()).is_ok() {
+                break;
+            }
+        }
+        let server_vals = |k: usize, path: &str| obj(zbus::block_on(generated::prop_values(&os, k, path)).expect("prop_values"));
+        for _ in 0..rounds {
+            for r in tree["regs"].as_array().unwrap() {
+                let k = r["iface"].as_u64().unwrap() as usize;
+                let path = r["path"].as_str().unwrap();
+                let shape = shapes.iter().find(|s| s["id"].as_u64() == Some(k as u64)).expect("shape");
+                for m in shape["methods"].as_array().unwrap() {
+                    let member = m["name"].as_str().unwrap();
+                    let args = rand_args(&m["ins"], rng);
+                    let fail = m["fallible"].as_bool().unwrap() && rng.chance(1, 4);
+                    sink::FAIL.store(fail, Ordering::SeqCst);
+                    let _ = sink::take();
+                    let res = generated::proxy_call_blocking(&client, k, path, member, &args);
+                    sink::FAIL.store(false, Ordering::SeqCst);
+                    let (runs, _) = handler_runs(&sink::take());
+                    let ret = match res {
+                        Err(e) => local_err(&e),
+                        Ok(r) => res_json(r),
+                    };
+                    emit(json!({"ev": "PCall", "iface": k, "member": member, "args": args, "fail": fail, "handlers": runs, "ret": ret}));
+                }
+                for p in shape["props"].as_array().unwrap() {
+                    let name = p["name"].as_str().unwrap();
+                    if p["access"] != "read" {
+                        let v = json!({"T": p["ty"], "v": sink::rand_val(&p["ty"], rng, 0)});
+                        let ret = match generated::proxy_set_blocking(&client, k, path, name, &v) {
+                            Err(e) => local_err(&e),
+                            Ok(r) => res_json(r.map(|_| vec![])),
+                        };
+                        emit(json!({"ev": "PSet", "iface": k, "prop": name, "value": v, "ret": ret, "server": server_vals(k, path)}));
+                    }
+                    if p["access"] != "write" {
+                        let ret = match generated::proxy_get_blocking(&client, k, path, name) {
+                            Err(e) => local_err(&e),
+                            Ok(r) => res_json(r.map(|v| vec![v])),
+                        };
+                        emit(json!({"ev": "PGet", "iface": k, "prop": name, "ret": ret, "server": server_vals(k, path)}));
+                    }
+                }
+                for g in shape["signals"].as_array().unwrap() {
+                    let name = g["name"].as_str().unwrap();
+                    let args = rand_args(&g["args"], rng);
+                    let mut items: Vec<J> = vec![];
+                    let mut note = String::new();
+                    match generated::proxy_signals_blocking(&client, k, path, name) {
+                        Err(e) => note = format!("subscribe failed: {e}"),
+                        Ok(mut it) => {
+                            if let Err(e) = zbus::block_on(generated::emit_signal(&os, k, path, name, &args)) {
+                                note = format!("emit failed: {e}");
+                            } else {
+                                // exactly one signal was emitted; a second `next` would block forever, so
+                                // surplus deliveries are looked for by the async run only
+                                if let Some(x) = it.next() {
+                                    items.push(match x {
+                                        Ok(a) => json!({"ok": true, "args": a, "msg": ""}),
+                                        Err(e) => json!({"ok": false, "args": [], "msg": e}),
+                                    });
+                                }
+                            }
+                        }
+                    }
+                    emit(json!({"ev": "PSignal", "iface": k, "signal": name, "args": args, "items": items, "note": note}));
+                }
+            }
+        }
+    }
+}
+
+fn main() {
+    let a: Vec<String> = std::env::args().collect();
+    let cmd = a.get(1).map(|s| s.as_str()).unwrap_or("");
+    match cmd {
+        "hash" => println!("{} {}", generated::SHAPES_HASH, generated::NIFACE),
+        "rpc" => cmd_rpc(&a[2], &a[3], &a[4]),
+        "props" => cmd_props(&a[2], &a[3], &a[4]),
+        "intro" => cmd_intro(&a[2], &a[3]),
+        "wire" => cmd_wire(&a[2], &a[3], &a[4]),
+        "proxy" => cmd_proxy(&a[2], &a[3], &a[4], a[5].parse().expect("seed"), a[6].parse().expect("rounds"), &a[7]),
+        _ => {
+            eprintln!("usage: iface hash | rpc | props | intro | wire | proxy (see main.rs)");
+            std::process::exit(2);
+        }
+    }
+}
